@@ -113,6 +113,16 @@ pub fn in_any_table(c: char) -> bool {
 /// Reference decoder. `None` = the input contains bytes the reference tables do not define
 /// (then the reference is silent, not wrong).
 pub fn ref_decode(input: &[u8]) -> Option<String> {
+    ref_decode_opt(input, false)
+}
+
+/// like `ref_decode`, but also silent (None) when the input holds a caret that starts neither a codepage marker, a colour
+/// (`^0`..`^9`) nor an escaped caret: such text is ambiguous on the way back
+pub fn ref_decode_strict(input: &[u8]) -> Option<String> {
+    ref_decode_opt(input, true)
+}
+
+fn ref_decode_opt(input: &[u8], strict: bool) -> Option<String> {
     let mut cur = table("cp1252");
     let mut out = String::new();
     let mut i = 0;
@@ -133,9 +143,15 @@ pub fn ref_decode(input: &[u8]) -> Option<String> {
                 i += 2;
                 continue;
             }
+            if strict && !n.is_ascii_digit() {
+                return None;
+            }
             out.push('^');
             i += 1;
             continue;
+        }
+        if strict && b == b'^' {
+            return None; // a caret as the very last byte
         }
         if b < 0x80 {
             out.push(b as char);
